@@ -77,6 +77,7 @@ let run_c08 toks obs =
         else timeouts_or_agree id k evs)
 
 let run_c12 toks obs =
+  match toks with "cc" :: _ -> C13.run_cc toks obs | _ ->
   C13.with_trace toks obs (fun id k evs tr ->
     if not (c12_pred tr) then
       Printf.sprintf "PROPFAIL %s sig=late-write%s the result buffer of a call changed after the call had returned" id (fam k)
